@@ -1878,6 +1878,17 @@ def replace_for_loops_with_set_list_comp(source: str) -> str:
 
         augass_template = ast.AugAssign(op=(ast.Add, ast.Sub), target=ast.Name(id=target))
 
+        if core.match_template(body_node, target_alter_template):
+            dependencies = (*generators, body_node.value.args[0])
+        elif core.match_template(body_node, augass_template):
+            dependencies = (*generators, body_node.value)
+        else:
+            continue
+
+        if any(any(core.walk(child, ast.Name(id=target))) for child in dependencies):
+            # The variable does not have its new value yet while the comprehension runs
+            continue
+
         if template_match := core.match_template(body_node, target_alter_template):
             if core.match_template(value, list_init_template) and (template_match.attr == "append"):
                 comp_type = ast.ListComp
